@@ -24,6 +24,8 @@
    (b) HISTORY.  The engine in production mode after a successful load as a state machine over
        render requests (engine.go Render): the template set is read, a fresh execution state is
        built from (template, converted data), run and dropped; only write-only statistics change.
+       A process is a list of such engines with requests addressed to any of them; nothing else
+       in the process is written by a render.
 
    (c) ALIASING.  One address space [store] of cells.  The caller's Go data occupies the cells below a
        boundary; convert allocates fresh cells above it and copies; every mutating template
@@ -385,6 +387,25 @@ Section Engine.
   Definition run (e : engine) (rs : list request) : engine * response :=
     fold_left (fun s r => step (fst s) r) rs (e, RNone).
   Definition resp (s : engine * response) : response := snd s.
+
+  (* One OS process: any number of engine instances side by side (pugjs keeps no package-level
+     mutable state: every render allocates its own objects, literals included).  A request is
+     addressed to one of them; an address outside the list is answered by nobody. *)
+  Definition process := list engine.
+  Fixpoint set_nth (p : process) (i : nat) (e : engine) : process :=
+    match p, i with
+    | [], _ => []
+    | _ :: r, O => e :: r
+    | x :: r, S k => x :: set_nth r k e
+    end.
+  Definition pstep (p : process) (ir : nat * request) : process * response :=
+    match nth_error p (fst ir) with
+    | None => (p, RNone)
+    | Some e => let er := step e (snd ir) in (set_nth p (fst ir) (fst er), snd er)
+    end.
+  Definition prun (p : process) (irs : list (nat * request)) : process * response :=
+    fold_left (fun s ir => pstep (fst s) ir) irs (p, RNone).
+  Definition presp (s : process * response) : response := snd s.
 End Engine.
 
 (* ======================================================================== (c) ALIASING *)
